@@ -35,6 +35,7 @@ def case_strategy():
         'qexp': st.integers(-12, 4),
         'dt': st.one_of(st.sampled_from(DT_CHOICES), st.floats(1e-6, 10.0)),
         'fnorm': st.floats(0.01, 8.0),
+        'store': st.sampled_from(['float', 'float', 'float', 'int_F', 'int_F_int_Q', 'fortran']),
         'sub': st.integers(0, 2 ** 31 - 1),
     })
 
@@ -123,6 +124,23 @@ def build(case):
     return F, Q, dt
 
 
+def stored(case, F, Q):
+    """The same matrices in another storage form (integer dtype where the values allow it, Fortran order; the parameters are documented as ndarray, so no lists):
+    the result must not depend on it. Integer-valued F are the kinematic-chain matrices users type in by hand."""
+    st_ = case.get('store', 'float')
+    if st_ in ('int_F', 'int_F_int_Q') and case['fclass'] in ('zero', 'nilpotent', 'skew'):
+        Fi = np.round(F * 0 + np.sign(F) * np.ceil(np.abs(F) - 1e-12)).astype(np.int64) if case['fclass'] != 'zero' else F.astype(np.int64)
+        Fi = np.clip(Fi, -3, 3)
+        Qs = Q
+        if st_ == 'int_F_int_Q':
+            Qs = np.round(np.clip(Q / max(np.abs(Q).max(), 1e-300) * 3, -3, 3)).astype(np.int64)
+            Qs = Qs @ Qs.T
+        return Fi, Qs, Fi.astype(float), np.asarray(Qs, float), 'int'
+    if st_ == 'fortran':
+        return np.asfortranarray(F), np.asfortranarray(Q), F, Q, 'fortran'
+    return F, Q, F, Q, 'float'
+
+
 def tolerances(F, Q, dt, c=64.0):
     n = len(F)
     E, _ = lg.discretise_ld(np.abs(F), np.zeros((n, n)), dt)
@@ -157,11 +175,15 @@ def noncommuting(F, Q):
 def run_reference(case, ctx):
     from pyins import kalman
     F, Q, dt = build(case)
+    Fs, Qs, F, Q, how = stored(case, F, Q)          # F, Q: the float values the reference uses; Fs, Qs: what is passed
+    if how == 'int' and dt > 0:
+        dt = min(dt, 4.0 / max(np.abs(F).sum(axis=1).max(), 1e-9))      # keep |F| dt <= 4 for hand-typed integer matrices
     n = len(F)
     _labels(ctx, case, F, Q, dt)
-    snapF, snapQ = F.copy(), Q.copy()
-    Phi, Qd = ctx.sut(kalman.compute_process_matrices, F, Q, dt)
-    ctx.check(bits_equal(F, snapF) and bits_equal(Q, snapQ), 'input_modified', 'F or Q changed')
+    ctx.label(f'store={how}')
+    snapF, snapQ = np.array(Fs, copy=True), np.array(Qs, copy=True)
+    Phi, Qd = ctx.sut(kalman.compute_process_matrices, Fs, Qs, dt)
+    ctx.check(np.array_equal(np.asarray(Fs), snapF) and np.array_equal(np.asarray(Qs), snapQ), 'input_modified', 'F or Q changed')
     ctx.check(Phi.shape == (n, n) and Qd.shape == (n, n), 'shape', f'{Phi.shape} {Qd.shape}')
     if dt == 0:
         ctx.check(np.array_equal(Phi, np.eye(n)), 'zero_step_phi', 'Phi != I at dt = 0')
